@@ -586,9 +586,10 @@ Theorem C04_infeasible_eval_pass_wraps :
     acc_req a = t + (-1) /\ acc_srv a = Some (n - 1)%nat /\ access_ok n t p a = false.
 Proof. exact infeasible_eval_pass_wraps. Qed.
 
-(* finding (still present): the user lowers the instance attribute model.lags below the deepest lag of the equations — the guard
-   follows the attribute, the period is SERVED, Y[t-1] is served the LAST period, and the result is stamped solved.
-   Every theorem above has the hypothesis prog_lags <= lags d that excludes exactly this class. *)
+(* the guard is necessary: user-lowered lags.  A user who assigns model.lags (or model.leads) below the deepest lag (furthest
+   lead) of the equations has redefined "the model's lags" — fsic honours the instance attribute, which is not a defect — and
+   then the period IS served, Y[t-1] is served the LAST period and the result is stamped solved.  This witness shows that the
+   premise prog_lags <= lags d (prog_leads <= leads d) of the positive theorems above cannot be dropped. *)
 Theorem C04_lowered_instance_lags_refuted :
   exists (prog : fprogram) d o t s p (a : access),
     (lags d < prog_lags float prog)%nat /\
